@@ -110,7 +110,7 @@ func runC04(c *Ctx) {
 			continue
 		}
 		r := c.Rng("journal", i)
-		opts := JGenOpts{MaxAccounts: r.Range(2, 6), MaxDays: r.Range(1, 5), Mutate: true, Unicode: true, BaseDay: 737000 + r.Intn(2000), SpanDays: r.Range(0, 10)}
+		opts := JGenOpts{MaxAccounts: r.Range(2, 6), MaxDays: r.Range(1, 5), Mutate: true, Unicode: true, Accruals: r.Chance(1, 3), BaseDay: 737000 + r.Intn(2000), SpanDays: r.Range(0, 10)}
 		j, tags := GenJournal(r, opts)
 		text, offsets := j.Text()
 		path := filepath.Join(dir, fmt.Sprintf("j%d.knut", i%64))
